@@ -169,6 +169,133 @@ def _escape_vc(ctx, L):
                    f"({sorted(k.__name__ for k in classes)}) is caught at the loops' call sites ({loops()})")
 
 
+def _trace_vc(ctx, L):
+    """a frame that ends in an exception has left no trace in the location table (so the intact copy that follows is not taken for a duplicate)"""
+    h = Harness(8 * 24 + 128 + 64, geom="free", greedy="free", area_size="free", ego="sym")
+    I = h.I
+    h.add_entry("e1")
+    # contract of the geometric function for this VC: an arbitrary real, and ZeroDivisionError for an area with a zero distance (its value is C07's subject;
+    # exact real arithmetic here would only make the query nonlinear)
+    free_f = I.stubs[Router.gn_geometric_function_f]
+
+    def f_stub(it, a, k, pc):
+        area = a[2] if len(a) > 4 else a[1]
+        zero = z3.Or(it._lb(it.equal(area.fields["a"], 0)), it._lb(it.equal(area.fields["b"], 0))) if isinstance(area, Obj) else FALSE
+        it.raises.append((z3.And(pc, zero), ZeroDivisionError))
+        return free_f(it, a, k, z3.And(pc, z3.Not(zero)))
+    I.stubs[Router.gn_geometric_function_f] = f_stub
+    pkt = G.sym_bytes("f", L)
+    h.call(Router.gn_data_indicate, pkt)
+    touched = [(pc, name) for pc, name, a in h.table_calls if name.startswith("new_")]
+    raised = [(c, k) for c, k in I.raises]
+    vars_ = all_vars(h)
+    vars_["frame"] = pkt
+
+    def replay(vals):
+        import copy
+        R, ll, got, patches = build_real(h, vals, scripted_table=False)
+
+        def snap():
+            return {repr(a): (e.position_vector, e.is_neighbour, tuple(getattr(e, "duplicate_packet_list", ()) or ())) for a, e in R.location_table.loc_t.items()}
+        before = snap()
+        err = None
+        # a clock at which the packet's source timestamp (octets 24..27: ms modulo 2^32 of ITS time) is fresh, so that the entry it creates is not purged at once
+        from unittest import mock
+        from flexstack.utils.time_service import TimeService, ITS_EPOCH, ELAPSED_SECONDS
+        tst = int.from_bytes(vals["frame"][24:28], "big") if len(vals["frame"]) >= 28 else 0
+        now_s = ITS_EPOCH - ELAPSED_SECONDS + (tst + 200 + 4 * 2 ** 32) / 1000.0
+        with patches, mock.patch.object(TimeService, "time", staticmethod(lambda: now_s)):
+            try:
+                R.gn_data_indicate(vals["frame"])
+            except Exception as e:          # noqa
+                err = e
+        after = snap()
+        return err is not None and after != before, f"frame {vals['frame'].hex()} raised {err!r}; location table entries {len(before)} -> {len(after)}, changed={after != before}"
+    ctx.witness(f"L{L}-trace-reach-table-update", I, z3.Or(*[pc for pc, _ in touched]) if touched else FALSE, vars={"frame": pkt})
+    any_touch = z3.Or(*[pc for pc, name in touched]) if touched else FALSE
+    by_class = {}
+    for c, k in raised:
+        by_class.setdefault(k, []).append(c)
+    for k, cs in sorted(by_class.items(), key=lambda kv: kv[0].__name__):
+        # one query per exception class: the conditions of one class share their arithmetic (e.g. a zero-sized area for ZeroDivisionError)
+        ctx.prove(f"L{L}-a-frame-that-raises-{k.__name__}-leaves-the-location-table-untouched", I, z3.And(any_touch, z3.Or(*cs)), vars=vars_, replay=replay,
+                  desc="no exception leaves gn_data_indicate on a path that has already updated the location table / duplicate packet list: a discarded frame cannot "
+                       "make the intact copy that follows look like a duplicate")
+    ctx.bound(f"{L}-octet frames, all octets symbolic; the upper layer does not fail here (its failure after a valid GN packet was processed is R2's subject)")
+
+
+def _truncated_vc(ctx, L):
+    """a frame too short for the extended header its header type announces is discarded: no location-table update, nothing delivered, nothing sent"""
+    h = Harness(8 * 24 + 128 + 64, geom="free", greedy="free", area_size="free", ego="sym")
+    I = h.I
+    h.add_entry("e1")
+    pkt = G.sym_bytes("f", L)
+    h.call(Router.gn_data_indicate, pkt)
+    ht = z3.LShR(pkt.bs[5], 4)
+    hst = pkt.bs[5] & 0x0F
+    # octets after the 12 of basic + common header (EN 302 636-4-1 clause 9.8): beacon 24, SHB 28, TSB 28, GUC 48, GAC/GBC 44, LS request 36, LS reply 48
+    need = z3.If(ht == 1, 36, z3.If(ht == 2, 60, z3.If(z3.Or(ht == 3, ht == 4), 56, z3.If(ht == 5, 40, z3.If(z3.And(ht == 6, hst == 0), 48, z3.If(ht == 6, 60, 0))))))
+    short = z3.And(pkt.bs[0] == 0x11, L < need)
+    touched = z3.Or(*[pc for pc, name, a in h.table_calls if name.startswith("new_")]) if [1 for pc, name, a in h.table_calls if name.startswith("new_")] else FALSE
+    vars_ = all_vars(h)
+    vars_["frame"] = pkt
+
+    def replay(vals):
+        from unittest import mock
+        from flexstack.utils.time_service import TimeService, ITS_EPOCH, ELAPSED_SECONDS
+        R, ll, got, patches = build_real(h, vals, scripted_table=False)
+        before = sorted(repr(a) for a in R.location_table.loc_t)
+        f = vals["frame"]
+        tst = int.from_bytes(f[20:24], "big") if len(f) >= 24 else 0          # beacon / SHB source timestamp (for GBC etc. octets 24..27; either way 'fresh' below)
+        err = None
+        outs = []
+        for base in (int.from_bytes(f[20:24], "big") if len(f) >= 24 else 0, int.from_bytes(f[24:28], "big") if len(f) >= 28 else 0):
+            R, ll, got, patches = build_real(h, vals, scripted_table=False)
+            before = sorted(repr(a) for a in R.location_table.loc_t)
+            now_s = ITS_EPOCH - ELAPSED_SECONDS + (base + 200 + 4 * 2 ** 32) / 1000.0
+            with patches, mock.patch.object(TimeService, "time", staticmethod(lambda: now_s)):
+                try:
+                    R.gn_data_indicate(f)
+                except Exception as e:          # noqa
+                    err = e
+            after = sorted(repr(a) for a in R.location_table.loc_t)
+            outs.append((after != before, bool(got), bool(ll.sent), err))
+        bad = any(o[0] or o[1] or o[2] for o in outs)
+        return bad, f"truncated frame {f.hex()} ({len(f)} octets, header type {f[5] >> 4}): location table changed={any(o[0] for o in outs)}, delivered={any(o[1] for o in outs)}, sent={any(o[2] for o in outs)} (error {outs[-1][3]!r})"
+    ctx.witness(f"L{L}-truncated-reach", I, short, vars={"frame": pkt})
+    ctx.prove(f"L{L}-truncated-frame-is-discarded-without-trace", I, z3.And(short, z3.Or(touched, h.any_indication(), h.any_send())), vars=vars_, replay=replay,
+              desc="a frame shorter than basic + common + the extended header of its type updates no location-table entry, is not delivered and triggers no transmission")
+    ctx.bound(f"{L}-octet frames, all octets symbolic except the version nibble; required lengths typed from clause 9.8")
+
+
+TRUNC_LENGTHS = (32, 35, 39, 47, 55, 59)
+
+
+def _mk_trunc(L):
+    @vc("C04", f"R4-truncated-L{L:03d}", tiers=("quick", "thorough") if L in (35, 55) else ("thorough",))
+    def f(ctx):
+        _truncated_vc(ctx, L)
+    return f
+
+
+for _L in TRUNC_LENGTHS:
+    _mk_trunc(_L)
+
+
+TRACE_LENGTHS = (56, 58, 62, 68)
+
+
+def _mk_trace(L):
+    @vc("C04", f"R3-no-trace-L{L:03d}", tiers=("quick", "thorough") if L in (58, 68) else ("thorough",))
+    def f(ctx):
+        _trace_vc(ctx, L)
+    return f
+
+
+for _L in TRACE_LENGTHS:
+    _mk_trace(_L)
+
+
 def _mk_escape(L):
     @vc("C04", f"R1-escape-L{L:03d}", tiers=("quick", "thorough") if L in QUICK_LENGTHS else ("thorough",))
     def f(ctx):
